@@ -119,7 +119,8 @@ Definition is_piped (s : str) : bool :=
   end.
 (* the names proposed for symbol s; isvar = smtlib.is_var on leaves *)
 Definition ssn_names (isvar : str -> bool) (s : str) : list str :=
-  if is_piped s then
+  if match s with c :: _ => N.eqb c cSEMI || N.eqb c cDQ | [] => false end then []      (* a comment or string literal in the place of the symbol *)
+  else if is_piped s then
     let inner := removelast (tl s) in
     map (fun t => cBAR :: t ++ [cBAR])
         (filter (fun t => negb (isvar (cBAR :: t ++ [cBAR]))) (simpler inner))
